@@ -51,7 +51,7 @@ package quickfix
 //@ func (f FIXInt) Write [C14]
 //@   ensures @canon canonint(result) && intval(result) == f
 //@   ensures @fresh fresh(result)
-//@   modifies fresh E.byte
+//@   modifies fresh E.uint8
 
 // INV_TV: bytes == decimal(tag) '=' value SOH
 //@ spec tvwf(b []byte, tag Tag, value []byte, k int) bool = 1 <= k && len(b) == k + len(value) + 2 && canonint(b[:k]) && intval(b[:k]) == tag && b[k] == 61 && b[len(b)-1] == 1 && (forall i :: 0 <= i && i < len(value) ==> b[k+1+i] == value[i])
@@ -68,7 +68,7 @@ package quickfix
 //@   ensures @soh tv.bytes[len(tv.bytes)-1] == 1
 //@   ensures @val forall i :: 0 <= i && i < len(value) ==> tv.bytes[len(tv.bytes) - len(value) - 1 + i] == value[i]
 //@   ensures @fresh fresh(tv.bytes)
-//@   modifies tv.*, fresh E.byte
+//@   modifies tv.*, fresh E.uint8
 
 //@ func bytesTotal [C10]
 //@   ensures @sum total == bsum(arr(bytes), off(bytes), len(bytes))
@@ -92,7 +92,7 @@ package quickfix
 //@ func (f FIXBoolean) Write [C14]
 //@   ensures @text len(result) == 1 && result[0] == (f ? 89 : 78)
 //@   ensures @fresh fresh(result)
-//@   modifies fresh E.byte
+//@   modifies fresh E.uint8
 
 //@ func (f *FIXString) Read [C09,C14]
 //@   ensures @ok err == nil
@@ -101,7 +101,7 @@ package quickfix
 
 //@ func (f FIXString) Write [C14]
 //@   ensures @value len(result) == len(f) && (forall i :: 0 <= i && i < len(f) ==> result[i] == f[i])
-//@   modifies fresh E.byte
+//@   modifies fresh E.uint8
 
 //@ func (f *FIXBytes) Read [C09,C14]
 //@   ensures @ok err == nil
@@ -164,3 +164,31 @@ package quickfix
 //@   requires @poslen dataLen > 0
 //@   ensures @shorter len(remBytes) <= len(buffer)
 //@   modifies parsedFieldBytes.*
+
+// ---- field_map.go -----------------------------------------------------------------------
+// INV_FM: the order list and the lookup map agree. cntTag counts occurrences of a tag in the order list;
+// the invariant says every tag occurs exactly once iff it is present in the lookup (so: no duplicates, no
+// stale entries, nothing missing), and every lookup value starts with a field carrying its key.
+//@ recspec cntTag(a int, p int, n int, t Tag) mathint = n <= 0 ? 0 : cntTag(a, p, n-1, t) + (cell(Tag, a, p+n-1) == t ? 1 : 0)
+//@ spec tagcount(m *FieldMap, t Tag) mathint = cntTag(arr(m.tags), off(m.tags), len(m.tags), t)
+//@ spec fmvals(m *FieldMap) bool = forall t Tag :: has(m.tagLookup, t) ==> len(m.tagLookup[t]) >= 1 && m.tagLookup[t][0].tag == t
+//@ spec fmorder(m *FieldMap) bool = forall t Tag :: tagcount(m, t) == (has(m.tagLookup, t) ? 1 : 0)
+//@ spec fmwf(m *FieldMap) bool = m.tagLookup != nil && m.rwLock != nil && fmvals(m) && fmorder(m)
+
+//@ lemma cntTag_ext [C10]: induction n: forall n int, a1 int, p1 int, a2 int, p2 int, t Tag :: (forall j :: p1 <= j && j < p1+n ==> old(cell(Tag, a1, j)) == cell(Tag, a2, j-p1+p2)) ==> old(cntTag(a1, p1, n, t)) == cntTag(a2, p2, n, t)
+//@ lemma cntTag_nonneg [C10]: induction n: forall n int, a int, p int, t Tag :: 0 <= cntTag(a, p, n, t) && cntTag(a, p, n, t) <= (n < 0 ? 0 : n)
+
+//@ func (m *FieldMap) initWithOrdering [C10]
+//@   requires m.tags == nil
+//@   ensures @wf fmwf(m)
+//@   ensures @empty forall t Tag :: !has(m.tagLookup, t)
+//@   ensures @order m.compare == ordering
+//@   modifies m.*
+
+//@ func (m *FieldMap) getOrCreate [C09,C10]
+//@   requires fmwf(m)
+//@   ensures @present has(m.tagLookup, tag)
+//@   ensures @result len(result) == 1 && result == m.tagLookup[tag][:1]
+//@   ensures @others forall t Tag :: t != tag ==> (has(m.tagLookup, t) <==> old(has(m.tagLookup, t))) && m.tagLookup[t] == old(m.tagLookup[t])
+//@   ensures @order fmorder(m)
+//@   ensures @same m.tagLookup == old(m.tagLookup) && m.rwLock == old(m.rwLock) && m.compare == old(m.compare)
